@@ -796,11 +796,133 @@ fn region_atomic_grid() {
     out::count("region_atomic_grid_sizes", sizes.len() as i128);
 }
 
+/// CALLER-DEFINED implementations of the library's safe extension trait `AtomicAccess`: nothing
+/// ties the size of the value type to the size of the atomic it is accessed through, so the
+/// access made is as wide as the ATOMIC. It must fit the parent and be aligned for the atomic.
+mod custom_atomic {
+    use std::sync::atomic::{AtomicU32, AtomicU64, AtomicU8};
+    use vm_memory::{AtomicAccess, ByteValued};
+    macro_rules! custom {
+        ($N:ident, $V:ty, $A:ty, $AV:ty) => {
+            #[repr(transparent)]
+            #[derive(Clone, Copy, Debug, Default, PartialEq, Eq)]
+            pub struct $N(pub $V);
+            // SAFETY: transparent wrapper around a plain integer.
+            unsafe impl ByteValued for $N {}
+            impl From<$AV> for $N {
+                fn from(v: $AV) -> Self {
+                    $N(v as $V)
+                }
+            }
+            impl From<$N> for $AV {
+                fn from(v: $N) -> $AV {
+                    v.0 as $AV
+                }
+            }
+            impl AtomicAccess for $N {
+                type A = $A;
+            }
+        };
+    }
+    custom!(ByteInU64, u8, AtomicU64, u64);
+    custom!(HalfInU32, u16, AtomicU32, u32);
+    custom!(WordInU8, u64, AtomicU8, u8);
+    custom!(SameU32, u32, AtomicU32, u32);
+}
+
+fn custom_atomic_access_grid() {
+    use custom_atomic::*;
+    use std::sync::atomic::Ordering;
+    use vm_memory::{AtomicAccess, Bytes, GuestAddress, GuestMemory, GuestMemoryMmap, GuestMemoryRegion, GuestRegionMmap, MemoryRegionAddress, VolatileSlice};
+    fn one<T: AtomicAccess + Copy + PartialEq + std::fmt::Debug>(tn: &str, val: T, lens: &[usize]) {
+        let asz = size_of::<T::A>();
+        let aal = align_of::<T::A>();
+        for &len in lens {
+            let reg = GuestRegionMmap::<()>::from_range(GuestAddress(0x4000), len, None).expect("region");
+            let host = reg.as_ptr() as usize;
+            let tail_end = if cfg!(miri) { len } else { len.div_ceil(4096) * 4096 };
+            let gm = GuestMemoryMmap::from_regions(vec![
+                GuestRegionMmap::<()>::from_range(GuestAddress(0x10000), len, None).unwrap(),
+                GuestRegionMmap::<()>::from_range(GuestAddress(0x10000 + len as u64), 16, None).unwrap(),
+            ])
+            .unwrap();
+            let ghost = gm.iter().next().unwrap().as_ptr() as usize;
+            // slice level: a window of `len` bytes in the middle of a 64-byte local block (canaries around)
+            #[repr(align(16))]
+            struct Blk([u8; 4096 + 64]);
+            let mut blk = Box::new(Blk([0xA5; 4096 + 64]));
+            let sl_len = len.min(4096);
+            let base = blk.0.as_mut_ptr() as usize + 16;
+            for off in len.saturating_sub(2 * asz + 1)..=len + 1 {
+                let fits = off.checked_add(asz).map_or(false, |e| e <= len);
+                // ---- region level
+                let want = fits && (host + off) % aal == 0;
+                let r1 = guarded(|| reg.store::<T>(val, MemoryRegionAddress(off as u64), Ordering::SeqCst).is_ok());
+                let r2 = guarded(|| reg.load::<T>(MemoryRegionAddress(off as u64), Ordering::SeqCst).ok());
+                match (&r1, &r2) {
+                    (Ok(a), Ok(b)) => {
+                        if *a != want || b.is_some() != want {
+                            v(&format!("custom-atomic/{}/region/{}", tn, if want { "fitting-aligned-access-refused" } else { "access-wider-than-the-remaining-parent-or-misaligned-accepted" }), jobj! {"region_len" => len, "off" => off, "atomic_width" => asz, "value_width" => size_of::<T>(), "store_ok" => *a, "load_ok" => b.is_some()});
+                        }
+                    }
+                    _ => v(&format!("custom-atomic/{}/region/panic", tn), jobj! {"region_len" => len, "off" => off}),
+                }
+                for k in len..tail_end {
+                    // SAFETY: inside the (page granular) mapping of the region.
+                    if unsafe { ((host + k) as *const u8).read_volatile() } != 0 {
+                        v(&format!("custom-atomic/{}/region/wrote-beyond-region", tn), jobj! {"region_len" => len, "off" => off, "dirty_tail_byte" => k});
+                        unsafe { ((host + k) as *mut u8).write_volatile(0) };
+                        break;
+                    }
+                }
+                // ---- guest level (the next region is adjacent: spilling into it is refused too)
+                if off < len {
+                    let gwant = fits && (ghost + off) % aal == 0;
+                    match guarded(|| gm.store::<T>(val, GuestAddress(0x10000 + off as u64), Ordering::SeqCst).is_ok()) {
+                        Ok(g) if g == gwant => {}
+                        Ok(g) => v(&format!("custom-atomic/{}/guest/{}", tn, if gwant { "fitting-aligned-access-refused" } else { "access-wider-than-the-remaining-region-or-misaligned-accepted" }), jobj! {"region_len" => len, "off" => off, "atomic_width" => asz, "store_ok" => g}),
+                        Err(_) => v(&format!("custom-atomic/{}/guest/panic", tn), jobj! {"region_len" => len, "off" => off}),
+                    }
+                    let next_first = gm.read_obj::<[u8; 16]>(GuestAddress(0x10000 + len as u64)).unwrap();
+                    if next_first != [0u8; 16] {
+                        v(&format!("custom-atomic/{}/guest/wrote-into-the-next-region", tn), jobj! {"region_len" => len, "off" => off});
+                        let _ = gm.write_obj([0u8; 16], GuestAddress(0x10000 + len as u64));
+                    }
+                }
+                // ---- slice level
+                if off <= sl_len + 1 && sl_len == len {
+                    // SAFETY: `sl_len` bytes inside the boxed block, which outlives the slice.
+                    let s = unsafe { VolatileSlice::new(base as *mut u8, sl_len) };
+                    let swant = fits && (base + off) % aal == 0;
+                    match guarded(|| (s.store::<T>(val, off, Ordering::SeqCst).is_ok(), s.load::<T>(off, Ordering::SeqCst).is_ok())) {
+                        Ok((a, b)) if a == swant && b == swant => {}
+                        Ok((a, b)) => v(&format!("custom-atomic/{}/slice/{}", tn, if swant { "fitting-aligned-access-refused" } else { "access-wider-than-the-remaining-parent-or-misaligned-accepted" }), jobj! {"slice_len" => len, "off" => off, "atomic_width" => asz, "store_ok" => a, "load_ok" => b}),
+                        Err(_) => v(&format!("custom-atomic/{}/slice/panic", tn), jobj! {"slice_len" => len, "off" => off}),
+                    }
+                    let outside_ok = blk.0[..16].iter().chain(blk.0[16 + sl_len..].iter()).all(|b| *b == 0xA5);
+                    if !outside_ok {
+                        v(&format!("custom-atomic/{}/slice/wrote-outside-the-slice", tn), jobj! {"slice_len" => len, "off" => off});
+                        blk.0.iter_mut().for_each(|b| *b = 0xA5);
+                    }
+                }
+                out::key(&format!("custom-atomic|{}|len%{}={}|{}", tn, asz, len % asz, if fits { "fits" } else if off < len { "straddles-end" } else { "beyond" }), true);
+                out::eval(3);
+            }
+        }
+    }
+    let lens: &[usize] = if cfg!(miri) { &[1, 3, 9, 15] } else { &[1, 2, 3, 5, 7, 8, 9, 12, 15, 16, 17, 4090, 4095, 4096, 4097, 4102] };
+    one::<ByteInU64>("u8-through-AtomicU64", ByteInU64(0x5a), lens);
+    one::<HalfInU32>("u16-through-AtomicU32", HalfInU32(0x5a5b), lens);
+    one::<WordInU8>("u64-through-AtomicU8", WordInU8(0x77), lens);
+    one::<SameU32>("u32-through-AtomicU32", SameU32(0x51525354), lens);
+}
+
 pub fn run(args: &Args) {
     let (si, _) = args.shard();
     if si == 0 {
         from_slice_grid();
         region_atomic_grid();
+        custom_atomic_access_grid();
     }
     for case in args.cases(5000) {
         run_case(case, args);
